@@ -85,7 +85,9 @@ func (g *zoneGen) services(owner, origin string, tag string) {
 			}
 		} else {
 			rec.Target = fmt.Sprintf("svc%d-%s.pool.test", i, tag)
-			g.giveAddrs(rec.Target)
+			if !core.Chance(g.r, 1, 6) { // (else: a target that has no address records at all)
+				g.giveAddrs(rec.Target)
+			}
 		}
 		if core.Chance(g.r, 1, 4) {
 			rec.Port = uint16(core.Pick(g.r, []int{443, 8443, 4443}))
@@ -202,6 +204,8 @@ func genC17(s uint64, idx int) *Plan {
 	default:
 		if x < 30 {
 			p.CallerECH = 900 + r.IntN(50)
+		} else if x < 36 {
+			p.CallerECH = -1
 		}
 		if core.Chance(r, 1, 4) {
 			p.CallerServerName = core.Pick(r, []string{"override.example", "inner.secret.example"})
